@@ -377,6 +377,11 @@ RECIPES = {
     "long_ws": [("T_WHITESPACE", b"                    \n                    ")],
     "line_empty": [("T_WHITESPACE", b"\t"), ("T_COMMENT", b"//\r\n")],
     "hash_cr_text": [("T_COMMENT", b"#x\n"), ("T_COMMENT", b"#\n"), ("T_WHITESPACE", b" ")],
+    # comments are opaque: what they contain (statement ends, brackets, quotes, comment openers, tags) never matters
+    "line_code": [("T_WHITESPACE", b" "), ("T_COMMENT", b"// $a = f(1);\n")],
+    "hash_code": [("T_COMMENT", b"# if ($a) { b(); }\n"), ("T_WHITESPACE", b" ")],
+    "block_code": [("T_COMMENT", b"/* a; /* b */"), ("T_WHITESPACE", b" ")],
+    "block_quotes": [("T_WHITESPACE", b" "), ("T_COMMENT", b"/* it's \"q\" ?> <?php { */")],
     "cr": [("T_WHITESPACE", b"\r")],
     "mix": [("T_WHITESPACE", b"\n"), ("T_COMMENT", b"// x\n"), ("T_DOC_COMMENT", b"/** y */"), ("T_WHITESPACE", b" ")],
 }
